@@ -6,6 +6,7 @@ import (
 	"fmt"
 	"go/token"
 	"go/types"
+	"sort"
 	"strings"
 
 	"golang.org/x/tools/go/ssa"
@@ -90,6 +91,49 @@ func checkC08(c *Ctx) Meta {
 	if sb := c.MustFn("C08-SUBMIT", "poc/engine/pocminer/miner", "(*PoCMiner).submitBlock"); sb != nil {
 		checkSubmit(c, sb)
 	}
+	// an accepted block is always recorded: after ProcessBlock accepted the block every return has passed
+	// the insertion into minedHeight (whatever happens to the broadcast hand-over)
+	if sb := c.Fn("poc/engine/pocminer/miner", "(*PoCMiner).submitBlock"); sb != nil {
+		key := "submitBlock:accepted-height-always-recorded"
+		var pb *ssa.Call
+		allInstrs(sb, func(in ssa.Instruction) {
+			if cl, ok := in.(*ssa.Call); ok && cl.Call.IsInvoke() && cl.Call.Method.Name() == "ProcessBlock" {
+				pb = cl
+			}
+		})
+		var ins ssa.Instruction
+		allInstrs(sb, func(in ssa.Instruction) {
+			if mu, ok := in.(*ssa.MapUpdate); ok {
+				if _, f, _, isF := fieldOfValue(mu.Map); isF && f == "minedHeight" {
+					ins = mu
+				}
+			}
+		})
+		if pb == nil || ins == nil {
+			c.Bad("C08-SUBMIT", key, c.Pos(sb.Pos()), "reason=anchor-missing: ProcessBlock call / minedHeight insertion")
+		} else {
+			orphan := resultOf(pb, 0)
+			var ot []boolTest
+			if orphan != nil {
+				ot = boolTestsOf(sb, orphan)
+			}
+			cut := orCut(errorEdgeCut(sb, pb, true), boolEdgeCut(ot, true))
+			r := reach(sb, pb, cut, func(in ssa.Instruction) bool { return in == ins })
+			bad := false
+			for _, ret := range returnsOf(sb) {
+				if r(ret) {
+					bad = true
+				}
+			}
+			if bad {
+				c.Bad("C08-SUBMIT", key, c.Pos(pb.Pos()), "after the chain accepted the block the function can return without recording its height (e.g. when the broadcast hand-over is skipped): the same height is mined again when a reorganisation offers it")
+			} else {
+				c.OK("C08-SUBMIT", key, c.Pos(ins.Pos()), "every return after acceptance has passed minedHeight[height] = {}")
+			}
+		}
+	}
+	c.Rule("C08-OFFER", "every mining space is asked: closures handed to `go` or to the worker pool inside a loop do not capture the loop variable (shared across iterations under this module's Go version), so each worker proves its own space", 1)
+	checkLoopVarCapture(c, "C08-OFFER", []string{pkgCapacity, pkgMiner, pkgSkchia})
 	// WMC: minedHeight
 	{
 		key := "minedHeight:only-generator-functions"
@@ -262,7 +306,7 @@ func checkBestProof(c *Ctx, f *ssa.Function) {
 			r := reach(f, a.In, nil, func(in ssa.Instruction) bool { return gts[in] })
 			for _, cmp := range cmps {
 				if r(cmp) {
-					stale = c.Pos(cmp.Pos())
+					stale = c.Pos(cmp.Pos()) + " "
 				}
 			}
 		}
@@ -788,5 +832,87 @@ func isParamOrFree(v ssa.Value) bool {
 		default:
 			return false
 		}
+	}
+}
+
+// checkLoopVarCapture: a closure created inside a loop and run asynchronously (go statement, worker
+// pool Submit, time.AfterFunc) must not capture a variable that lives across iterations and is assigned
+// inside the loop (the range / for variable under pre-1.22 semantics): by the time the closure runs the
+// variable holds a later element.
+func checkLoopVarCapture(c *Ctx, rule string, pkgs []string) {
+	inPkgs := map[string]bool{}
+	for _, p := range pkgs {
+		inPkgs[p] = true
+	}
+	n := 0
+	var fns []*ssa.Function
+	for fn := range c.AllFuncs {
+		if inPkgs[pkgOf(fn)] && len(fn.Blocks) > 0 {
+			fns = append(fns, fn)
+		}
+	}
+	sort.Slice(fns, func(i, j int) bool { return FuncName(fns[i]) < FuncName(fns[j]) })
+	for _, fn := range fns {
+		ord := 0
+		allInstrs(fn, func(in ssa.Instruction) {
+			mc, ok := in.(*ssa.MakeClosure)
+			if !ok || !blockReentered(fn, mc) {
+				return
+			}
+			// asynchronous use?
+			async := ""
+			if refs := mc.Referrers(); refs != nil {
+				for _, r := range *refs {
+					switch x := r.(type) {
+					case *ssa.Go:
+						async = "go statement"
+					case *ssa.Call:
+						nm := callName(x)
+						if nm == "Submit" || nm == "AfterFunc" || nm == "Go" {
+							async = nm
+						}
+					}
+				}
+			}
+			if async == "" {
+				return
+			}
+			n++
+			ord++
+			key := fmt.Sprintf("%s:async-closure#%d", FuncName(fn), ord)
+			bad := ""
+			for _, b := range mc.Bindings {
+				a, isA := b.(*ssa.Alloc)
+				if !isA {
+					continue
+				}
+				// allocated once outside the loop, assigned inside it
+				if blockReentered(fn, a) {
+					continue // a fresh variable per iteration
+				}
+				assignedInLoop := false
+				if refs := a.Referrers(); refs != nil {
+					for _, r := range *refs {
+						if st, isSt := r.(*ssa.Store); isSt && st.Addr == ssa.Value(a) && blockReentered(fn, st) {
+							// the store is inside the same loop as the closure creation
+							if reach(fn, st, nil, nil)(mc) && reach(fn, mc, nil, nil)(st) {
+								assignedInLoop = true
+							}
+						}
+					}
+				}
+				if assignedInLoop {
+					bad = a.Comment
+				}
+			}
+			if bad != "" {
+				c.Bad(rule, key, c.Pos(mc.Pos()), "the closure run through "+async+" captures the loop variable `"+bad+"`, which is shared by all iterations: workers started late see a later element, so some elements are processed twice and others never")
+			} else {
+				c.OK(rule, key, c.Pos(mc.Pos()), "closure run through "+async+" captures only per-iteration values")
+			}
+		})
+	}
+	if n == 0 {
+		c.Bad(rule, "anchor:async-closures", "", "reason=anchor-missing: no asynchronous closure created in a loop was found in the packages examined")
 	}
 }
